@@ -72,11 +72,11 @@ def run(ctx):
                 'getline from files/commands, file operand) ending normally, by exit or by a run-time error, exported by TLC from '
                 'Gen_IOStreams with the predicted file contents, close() values and the set of allowed standard outputs (a system() '
                 'child\'s output lies exactly between the program\'s output before and after the call); or a history of print / '
-                'printf / print with two arguments to stdout and its aliases, in default, CSV and TSV output mode, with Config.Output '
+                'printf / print with two arguments / the implied print of a rule with a pattern and no action (rendered as a main loop over one record per action) to stdout and its aliases, in default, CSV and TSV output mode, with Config.Output '
                 'a plain writer or a *bufio.Writer of 3, 16 or 4096 bytes (quick: 9 of the 12 mode x writer combinations; histories of 2 actions, thorough: also of 3 actions for 4 of the combinations), failing at byte k for every k (only "the run fails" is '
                 'judged) or never failing (everything must arrive); or a run in newline output mode raw / crlf / smart of one or two '
                 '(thorough: three) print / printf statements on one destination (stdout, "-", /dev/stdout, /dev/stderr, > and >> a file, | cat, '
-                '| "  cat") whose string argument is k, k LF, k LF K, k LF K LF or k CR LF K, optionally followed by close / fflush, every '
+                '| "  cat") whose string argument is k, k LF, k LF K, k LF K LF, k CR LF K, or a block (one string of N copies of k, each history replayed with N = 4096, 65535, 65536, 65537, 131073: around the stream buffer sizes), optionally followed by close / fflush, every '
                 'ending for the single statements, with the delivered bytes predicted (crlf: every LF of a written string not already '
                 'preceded by CR arrives as CR LF, nothing is lost); or a write-level schedule of StdoutShare; or a random run '
                 'recorded from the real interpreter; non-trivial when it writes to a file, a command or an alias of stdout')
@@ -170,6 +170,10 @@ def run(ctx):
         nk = iocommon.split_cases(ctx, 'newline_all.ndjson', 'newline.ndjson',
                                   lambda c: len(c['acts']) <= 3 or rnd.random() < (0.05 if c['pred']['starts'] else 0.25))
         ctx.log(f'newline_all.ndjson: {nk} exported histories kept for replay')
+    nblock = iocommon.split_cases(ctx, 'newline.ndjson', 'newline_block.ndjson', lambda c: iocommon.has_block(c) and len(c['acts']) > 2)
+    if nblock < 100:
+        raise MachineryError(f'newline: only {nblock} histories write a block payload (one string as large as a stream buffer) next to other output')
+    ctx.log(f'newline.ndjson: {nblock} histories of two statements with a block payload')
     ncrlf = iocommon.split_cases(ctx, 'newline.ndjson', 'newline_dim.ndjson', iocommon.has_newline_dim)
     ncmd = iocommon.split_cases(ctx, 'newline.ndjson', 'newline_cmd.ndjson',
                                 lambda c: c['cfg']['nlmode'] == 'crlf' and c['pred']['starts'] and c['pred']['stdoutJudged'])
@@ -178,6 +182,7 @@ def run(ctx):
     sn = iocommon.replay(ctx, 'newline.ndjson', 'newline-modes', iocommon.corrupt_newline, 1000)
     if all(sig in iocommon.known_sigs(ctx) for sig in sn['sig_counts']):
         ctx.selftest(ctx.path('newline_dim.ndjson'), ctx.pid, iocommon.corrupt_newline, 'newline-modes-crlf-and-shapes', k=24)
+        ctx.selftest(ctx.path('newline_block.ndjson'), ctx.pid, iocommon.corrupt_newline, 'block-payloads', k=24)
     fail = ctx.cfg('Gen_IOStreams', name='Gen_failure', constants={'Family': '"failure"', 'Depth': 2, 'Rich': 1 if q else 2, 'Runs': 1})
     ctx.tlc('Gen_IOStreams', fail, capture='failure.ndjson', timeout=900)
     if not q:
@@ -188,8 +193,15 @@ def run(ctx):
     ncsv = iocommon.split_cases(ctx, 'failure.ndjson', 'failure_csv.ndjson', lambda c: c['cfg']['omode'] != 'default')
     if ncsv < 200:
         raise MachineryError(f'stdout-failure: only {ncsv} histories in CSV / TSV output mode')
+    nimp = iocommon.split_cases(ctx, 'failure.ndjson', 'failure_implied.ndjson', iocommon.has_implied)
+    nimpb = iocommon.split_cases(ctx, 'failure.ndjson', 'failure_implied_buffered.ndjson',
+                                 lambda c: iocommon.has_implied(c) and c['cfg']['wkind'] != 'plain' and c['pred'].get('onlyErr'))
+    if nimp < 200 or nimpb < 100:
+        raise MachineryError(f'stdout-failure: only {nimp} histories with the implied print of a pattern-only rule ({nimpb} on a failing buffered writer)')
+    ctx.log(f'failure.ndjson: {nimp} histories with the implied print of a rule without an action, {nimpb} of them on a failing buffered writer')
     if all(sig in iocommon.known_sigs(ctx) for sig in sf['sig_counts']):
         ctx.selftest(ctx.path('failure_csv.ndjson'), ctx.pid, iocommon.corrupt_failure, 'stdout-failure-csv-tsv')
+        ctx.selftest(ctx.path('failure_implied.ndjson'), ctx.pid, iocommon.corrupt_failure, 'stdout-failure-implied-print')
     iocommon.replay(ctx, 'share.ndjson', 'shared-stdout', iocommon.corrupt_share, 3)
     if not q:
         race_instrument(ctx)
